@@ -7,6 +7,7 @@ import Driver.SortProto
 import Driver.TriviaProto
 import Driver.CallProto
 import StyluaModel.Model.Cost
+import StyluaModel.Generated.ExitOps
 /-
 `modeld`: one request per line on stdin, one answer per line on stdout.
 The harness runs the real code on the same requests and diffs the answers.
@@ -69,6 +70,11 @@ def handle (line : String) : String :=
       match d.toNat? with
       | some n => if kind == "chain" then toString (StyluaModel.Cost.chain n) else if kind == "call" then toString (StyluaModel.Cost.call n) else "bad-op"
       | none => "bad-op"
+  | ["exit", sched] =>
+      -- H = next operation of the diff handler, L = next operation of the logger (ops from Generated/ExitOps.lean)
+      let ts : List StyluaModel.Sched.Thread := [{ ops := StyluaModel.Generated.diffHandlerOps }, { ops := StyluaModel.Generated.loggerOps }]
+      let order := sched.toList.map fun c => if c == 'H' then 0 else 1
+      toString (StyluaModel.Sched.exec 0 ts order)
   | ["faithful", i] => Driver.ExprProto.handleFaithful i
   | ["semeq", i, o] => Driver.ExprProto.handleSem i o
   | _ => "bad-op"
